@@ -156,6 +156,41 @@ class ConnGen:
         return {'e': 'msg', 'tag': self.tag, 't': t,
                 'm': {'ttype': iface, 'tid': target.id, 'name': msg, 'sent': self.sent(iface, msg), 'args': args}}
 
+    def custom(self, t):
+        r = self.r
+        mine = self.anyobj(lambda o: o.type in ('zz_custom_v1', 'zz_child_v1'))
+        if not mine or r.random() < 0.2:
+            reg = r.choice(self.live(lambda o: o.type == 'wl_registry'))
+            i = self.fresh_id(False)
+            self.create(i, 'zz_custom_v1')
+            return {'e': 'msg', 'tag': self.tag, 't': t,
+                    'm': {'ttype': 'wl_registry', 'tid': reg.id, 'name': 'bind', 'sent': not self.server_side,
+                          'args': [{'k': 'int', 'v': 77}, {'k': 'str', 's': 'zz_custom_v1'}, {'k': 'int', 'v': 1},
+                                   {'k': 'new', 'type': '', 'id': i}]}}
+        o = r.choice(mine)
+        c = r.random()
+        sent = r.random() < 0.5
+        if c < 0.3:
+            # looks like the display's delete_id, but is not: no object is destroyed by it
+            victims = self.anyobj(lambda x: x.id > 1)
+            args = [{'k': 'int', 'v': r.choice(victims).id if victims else 3}]
+            name = 'delete_id'
+        elif c < 0.55 and o.alive:
+            i = self.fresh_id(not sent if self.server_side else False)
+            self.create(i, 'zz_child_v1')
+            args = [{'k': 'new', 'type': 'zz_child_v1', 'id': i}, {'k': 'int', 'v': 3}]
+            name = 'make'
+        elif c < 0.8:
+            others = self.anyobj()
+            x = r.choice(others)
+            args = [{'k': 'obj', 'type': x.type, 'id': x.id}, {'k': 'nil', 'type': ''}, {'k': 'str', 's': r.choice(TEXTS)}]
+            name = r.choice(['frob', 'new', 'destroyed'])
+        else:
+            args = [{'k': 'float', 'raw': 640}, {'k': 'fd', 'v': 9}, {'k': 'array', 'n': 8}]
+            name = 'sync'
+        return {'e': 'msg', 'tag': self.tag, 't': t,
+                'm': {'ttype': o.type, 'tid': o.id, 'name': name, 'sent': sent, 'args': args}}
+
     def usable_msgs(self, iface):
         return [m for m in self.proto[iface]['msgs'] if (iface + '.' + m) not in self.amb]
 
@@ -210,6 +245,11 @@ class ConnGen:
                 return {'e': 'msg', 'tag': self.tag, 't': t,
                         'm': {'ttype': 'wl_display', 'tid': 1, 'name': 'sync', 'sent': not self.server_side,
                               'args': [{'k': 'new', 'type': 'wl_callback', 'id': i}]}}
+            if c < 0.50 and regs and self.r.random() < 0.5:
+                # an interface the tool has no description for: shown undecorated, creates and mentions objects all the same
+                ev = self.custom(t)
+                if ev is not None:
+                    return ev
             # a message on some object (alive, or mentioned after its destruction)
             cands = self.anyobj(lambda o: o.type in self.proto and self.proto[o.type]['msgs'] and o.type != 'wl_registry')
             if not cands:
